@@ -219,7 +219,31 @@ def build(ex):
         ensures=[state_taken, state_not_left_behind], raises={'ConnectionClosedError': state_untouched, 'AnyException': state_untouched}, raises_only=['ConnectionClosedError', 'AnyException'],
         options={'__call_hooks__': dict(common.MSG_HOOKS), 'recv_closed_check': False, 'chan_elem_inv': {'data': pair_first},
                  'recv_raises': {'data': ['AnyException']}})
-    return [(L1, None), (L2, None), (L2i, None), (L4, None), (L3, None), (L4b, None), (L5, None)] + ([(L4c, None)] if L4c is not None else []) + [(L2r, None), (L4r, None)]
+    return [(L1, None), (L2, None), (L2i, None), (L4, None), (L3, None), (L4b, None), (L5, None)] + ([(L4c, None)] if L4c is not None else []) + [(L2r, None), (L4r, None)] + restart_lemmas(ex)
+
+
+def restart_lemmas(ex):
+    """L6: the state across a restart chain.  L5 says the restart arguments carry the parent's _user_state; that this IS the child's last state when restart() builds
+    them - for the process kind only after _get_result() has read the final message, on every way the old incarnation was stopped - is the state clause of the
+    C17 cone's contract on the real PersistentWorker.restart, checked here for the three kinds."""
+    from . import C17 as _c17
+    saved_abs, saved_ext, saved_hooks = dict(ex.abs_classes), dict(ex.ext_models), dict(ex.call_hooks)
+    built = _c17.build(ex)
+    for k_, v_ in saved_abs.items():
+        ex.abs_classes[k_] = v_
+    for k_, v_ in saved_ext.items():
+        ex.ext_models[k_] = v_
+    ex.call_hooks.clear()
+    ex.call_hooks.update(saved_hooks)
+    out = []
+    for con, v in built:
+        if con.lid.startswith('L1-'):
+            con.name = con.name.replace('C17.' + con.lid, 'C16.L6-' + con.lid[3:])
+            con.lid = 'L6-' + con.lid[3:]
+            con.ensures = [e for e in con.ensures if getattr(e, '__name__', '') == 'state_passed_on']
+            con.all_exits = []
+            out.append((con, v))
+    return out
 
 
 def _new(r, site=''):
@@ -231,6 +255,9 @@ def _new(r, site=''):
 
 def replay(ob, repo):
     from pyvc.native import run_script
+    if 'C16.L6-' in ob.get('lemma', ''):
+        r = run_script('c17_native.py', {'kinds': []}, repo, timeout=200)       # the state-across-restart scenarios (and the falsy-option ones) only
+        return bool(r.get('violates')), r
     r = run_script('c16_native.py', {'lemma': ob['lemma']}, repo, timeout=200)
     r['violations_not_in_known_findings'] = _new(r, ob.get('site', ''))
     return bool(r['violations_not_in_known_findings']), r
